@@ -71,7 +71,10 @@ void harness(void)
 					}
 					CHECK(h->filename[n - last] == 0, "C05: name terminated");
 					if (has) CHECK(h->path[last] == 0, "C05: path terminated after the last separator");
-					for (j = 0; j < S_MAX; ++j) if (j < n - last) CHECK(h->filename[j] != '/', "C11: file name contains no '/'");
+				}
+				if (h->filename != NULL) {
+					unsigned end = 0;
+					for (j = 0; j < S_MAX; ++j) if (!end) { if (h->filename[j] == 0) end = 1; else CHECK(h->filename[j] != '/', "C11: file name contains no '/'"); }
 				}
 			}
 		}
@@ -96,7 +99,10 @@ void harness(void)
 		/* completeness direction for well-formed input: a header that satisfies all rules is accepted */
 		unsigned good = hl >= minlen && hl + 2 <= slen && minlen + plen <= hl;
 		for (i = 0; i < S_MAX; ++i) if (i >= 2 && i < hl + 2) sum += data[i];
-		if (good && (sum & 0xff) == data[1]) CHECK(0, "C05: a level-0/1 base header that satisfies its integrity rules is accepted");
+		if (good && (sum & 0xff) == data[1] && !alloc_failed) CHECK(0, "C05: a level-0/1 base header that satisfies its integrity rules is accepted");
 	}
+#ifdef ALLOC_MAY_FAIL
+	if (!ok && alloc_failed) WITNESS("refused because an allocation failed");
+#endif
 	WITNESS("end");
 }
